@@ -370,7 +370,7 @@ func (h *H) efail(f *family, what, subject string, got, want interface{}) {
 func (h *H) partE(rng *vh.Rng) {
 	nF := 30
 	if h.a.Thorough() {
-		nF = 600
+		nF = 300
 	}
 	// status of the proposed known finding
 	status := ""
